@@ -3,7 +3,7 @@
 From Coq Require Import ZArith NArith List Bool String Ascii Arith Lia.
 Import ListNotations.
 From MP Require Import Base Gen_path Gen_compact Gen_sqlbatch CacheMap CacheMap_proofs CachePath_proofs.
-From MP Require Import FileCache FileCache_proofs SqlCache CacheBackends.
+From MP Require Import FileCache FileCache_proofs SqlCache SqlCache_proofs CacheBackends.
 Local Open Scope string_scope.
 Local Open Scope Z_scope.
 
@@ -162,22 +162,29 @@ Proof.
   injection E as -> -> ->. subst. reflexivity.
 Qed.
 
-Definition no_bulk_load (o : op) : Prop := match o with LoadMany _ => False | _ => True end.
-
-Lemma sql_run_kv : forall p ops d, Forall no_bulk_load ops ->
+(* the one-database back-ends are the keyed store over (x, y, level): the bulk load returns what the per-tile
+   loads return (SqlCache_proofs.bulk_load_correct), also for requests that repeat a coordinate *)
+Lemma sql_run_kv : forall p, good_params p -> forall ops d, db_wf d ->
   sql_run p d ops = kv_run Z3_eqb coord_of d ops.
 Proof.
-  induction ops as [|o r IH]; intros d H; [reflexivity|]. inversion H; subst.
+  intros p G. induction ops as [|o r IH]; intros d Hw; [reflexivity|].
   cbn [sql_run kv_run].
-  assert (E : sql_step p d o = kv_step Z3_eqb coord_of d o) by (destruct o; try reflexivity; contradiction).
-  rewrite E. destruct (kv_step Z3_eqb coord_of d o) as [d' x]. rewrite IH by assumption. reflexivity.
+  assert (E : sql_step p d o = kv_step Z3_eqb coord_of d o).
+  { destruct o; try reflexivity. cbn [sql_step kv_step]. rewrite (bulk_load_correct p d _ G Hw).
+    rewrite map_map. reflexivity. }
+  assert (W : db_wf (fst (kv_step Z3_eqb coord_of d o))).
+  { destruct o; cbn [kv_step fst]; try exact Hw.
+    - apply db_wf_put. exact Hw.
+    - apply db_wf_fold_put. exact Hw.
+    - apply db_wf_del. exact Hw. }
+  rewrite E. destruct (kv_step Z3_eqb coord_of d o) as [d' x]. cbn [fst] in W. rewrite IH by exact W. reflexivity.
 Qed.
 
-(* partial: histories without bulk loads (what is missing: bulk_load = the per-tile loads, see sql_batching) *)
-Theorem sql_refines_partial : forall d0 ops, ops_ok (sql_valid d0) ops -> Forall no_bulk_load ops ->
+Theorem sql_refines : forall d0 ops, ops_ok (sql_valid d0) ops ->
   model_outs BMbtiles ops = spec_outs ops /\ model_outs BGpkg ops = spec_outs ops.
 Proof.
-  intros d0 ops Hok Hnb. unfold model_outs, spec_outs. rewrite !sql_run_kv by assumption.
+  intros d0 ops Hok. unfold model_outs, spec_outs.
+  rewrite (sql_run_kv _ mbtiles_params_good), (sql_run_kv _ gpkg_params_good) by constructor.
   split; apply (kv_refines_spec Z3_eqb coord_of (sql_valid d0)); try exact Hok;
     (apply key_inj_on_intro; [apply Z3_eqb_eq | intros a b; apply coord_of_inj]).
 Qed.
@@ -197,9 +204,10 @@ Qed.
 
 Example quad_valid_example : quad_valid [] (A 5 2 3 []) /\ compact_valid [] (A 127 128 0 []).
 Proof. unfold quad_valid, compact_valid, coords_ok. cbn. repeat split; lia. Qed.
-(* ------------------------------------------------------------------ one database per level (without bulk loads) *)
+(* ------------------------------------------------------------------ one database per level *)
 Section LevelRefine.
   Variable p : bparams.
+  Hypothesis Gp : good_params p.
   Variable d0 : dims.
 
   Notation V := (sql_valid d0).
@@ -208,7 +216,7 @@ Section LevelRefine.
 
   Notation dimg := (img coord_of V).
 
-  Definition linv (s : ldb) : Prop := forall l, dimg (ldb_get s l).
+  Definition linv (s : ldb) : Prop := forall l, dimg (ldb_get s l) /\ db_wf (ldb_get s l).
   Definition lrel (s : ldb) (m : smap) : Prop := forall a, V a -> db_get (ldb_get s (az a)) (coord_of a) = m a.
 
   Lemma ldb_get_set : forall s l d l', ldb_get (ldb_set s l d) l' = if Z.eqb l l' then d else ldb_get s l'.
@@ -233,8 +241,9 @@ Section LevelRefine.
     linv (lput s a b) /\ lrel (lput s a b) (supd m a (Some b)).
   Proof.
     intros s m a b Hi Va Hr. unfold lput. split.
-    - intros l. rewrite ldb_get_set. destruct (Z.eqb (az a) l); [|apply Hi].
-      apply (img_put Z3_eqb coord_of V); [apply Hi | exact Va].
+    - intros l. rewrite ldb_get_set. destruct (Z.eqb (az a) l); [|apply Hi]. split.
+      + apply (img_put Z3_eqb coord_of V); [apply Hi | exact Va].
+      + apply db_wf_put. apply Hi.
     - intros a' Va'. rewrite ldb_get_set. unfold supd. destruct (Z.eqb_spec (az a) (az a')) as [E|N].
       + rewrite db_get_put; try assumption; [|apply Hi].
         destruct (addr_eqb a' a); [reflexivity|]. rewrite E. apply Hr. exact Va'.
@@ -255,46 +264,56 @@ Section LevelRefine.
     lrel (ldb_set s (az a) (db_del (ldb_get s (az a)) (coord_of a))) (supd m a None).
   Proof.
     intros s m a Hi Va Hr. split.
-    - intros l. rewrite ldb_get_set. destruct (Z.eqb (az a) l); [|apply Hi].
-      apply (img_del Z3_eqb coord_of V). apply Hi.
+    - intros l. rewrite ldb_get_set. destruct (Z.eqb (az a) l); [|apply Hi]. split.
+      + apply (img_del Z3_eqb coord_of V). apply Hi.
+      + apply db_wf_del. apply Hi.
     - intros a' Va'. rewrite ldb_get_set. unfold supd. destruct (Z.eqb_spec (az a) (az a')) as [E|N].
       + unfold db_get, db_del. rewrite (kv_get_del Z3_eqb coord_of V Hinj); try assumption; [|apply Hi].
         destruct (addr_eqb a' a); [reflexivity|]. rewrite E. apply Hr. exact Va'.
       + destruct (addr_eqb a' a) eqn:E2; [apply addr_eqb_eq in E2; subst; contradiction|]. apply Hr. exact Va'.
   Qed.
 
-  Lemma lsql_run_refines : forall ops s m, ops_ok V ops -> Forall no_bulk_load ops -> linv s -> lrel s m ->
+  Lemma lsql_run_refines : forall ops s m, ops_ok V ops -> linv s -> lrel s m ->
     snd (lsql_run p s ops) = snd (spec_run m ops).
   Proof.
-    induction ops as [|o r IH]; intros s m Hok Hnb Hi Hr; [reflexivity|].
-    inversion Hok as [|? ? Ho Hrest]; inversion Hnb as [|? ? Hn Hnrest]; subst. cbn [lsql_run spec_run].
+    induction ops as [|o r IH]; intros s m Hok Hi Hr; [reflexivity|].
+    inversion Hok as [|? ? Ho Hrest]; subst. cbn [lsql_run spec_run].
     assert (S : snd (lsql_step p s o) = snd (spec_step m o) /\
                 linv (fst (lsql_step p s o)) /\ lrel (fst (lsql_step p s o)) (fst (spec_step m o))).
     { unfold op_ok in Ho. destruct o as [a b|l|a|l|a|a]; cbn [lsql_step spec_step fst snd op_addrs] in *.
       - inversion Ho; subst. split; [reflexivity|]. apply lput_ok; assumption.
       - split; [reflexivity|]. apply lput_fold_ok; assumption.
       - inversion Ho; subst. rewrite (Hr a) by assumption. split; [reflexivity|]. split; assumption.
-      - contradiction.
+      - split; [|split; assumption].
+        rewrite (level_bulk_load_correct p Gp s (fun l0 => proj2 (Hi l0))). f_equal.
+        rewrite map_map. apply map_ext_in. intros a Ha. unfold lg, coord_of at 1. cbn [snd].
+        apply Hr. rewrite Forall_forall in Ho. apply Ho. exact Ha.
       - inversion Ho; subst. rewrite (Hr a) by assumption. split; [reflexivity|]. split; assumption.
       - inversion Ho; subst. split; [reflexivity|]. apply lremove_ok; assumption. }
     destruct S as [E1 [Hi' Hr']].
     destruct (lsql_step p s o) as [s' x]. destruct (spec_step m o) as [m' x']. cbn [fst snd] in *. subst x'.
-    specialize (IH s' m' Hrest Hnrest Hi' Hr').
+    specialize (IH s' m' Hrest Hi' Hr').
     destruct (lsql_run p s' r) as [s'' xs]. destruct (spec_run m' r) as [m'' xs']. cbn [snd] in *. subst. reflexivity.
   Qed.
 End LevelRefine.
 
-Theorem level_sql_refines_partial : forall d0 ops, ops_ok (sql_valid d0) ops -> Forall no_bulk_load ops ->
+Theorem level_sql_refines : forall d0 ops, ops_ok (sql_valid d0) ops ->
   model_outs BSqlite ops = spec_outs ops /\ model_outs BGpkgLevel ops = spec_outs ops.
 Proof.
-  intros d0 ops Hok Hnb. unfold model_outs, spec_outs.
-  split; apply (lsql_run_refines _ d0); try assumption;
-    try (intros l; cbn [ldb_get]; constructor); intros a _; reflexivity.
+  intros d0 ops Hok. unfold model_outs, spec_outs.
+  split; [apply (lsql_run_refines _ mbtiles_params_good d0) | apply (lsql_run_refines _ gpkg_params_good d0)];
+    try assumption; try (intros l; cbn [ldb_get]; split; constructor); intros a _; reflexivity.
 Qed.
+
+(* a bulk load that names a coordinate twice fills both tile objects (the repaired defect C05-dup) *)
+Example repeated_address_example :
+  model_outs BMbtiles [Store (A 1 2 3 []) [7]; LoadMany [A 1 2 3 []; A 1 2 3 []; A 0 0 0 []]] =
+  [ODone; OLoadMany false [Some [7]; Some [7]; None]].
+Proof. vm_compute. reflexivity. Qed.
 
 Example level_history_example :
   let ops := [Store (A 1 1 2 []) [1]; Store (A 1 1 3 []) [2]; Store (A 0 0 0 []) [3]; Remove (A 1 1 2 []);
               Load (A 1 1 3 []); Load (A 1 1 2 []); IsCached (A 0 0 0 [])] in
-  ops_ok (sql_valid []) ops /\ Forall no_bulk_load ops /\
+  ops_ok (sql_valid []) ops /\
   model_outs BSqlite ops = [ODone; ODone; ODone; ODone; OLoad (Some [2]); OLoad None; OCached true].
 Proof. repeat split; try (repeat constructor). Qed.
